@@ -49,7 +49,10 @@ type Proof struct {
 }
 
 func (p *Proof) IsValid(public Public) bool {
-	if p == nil {
+	if p == nil || p.Commitment == nil || public.Prover == nil || public.Aux == nil {
+		return false
+	}
+	if !arith.IsValidNatModN(public.Aux.N(), p.S, p.C) {
 		return false
 	}
 	if !public.Prover.ValidateCiphertexts(p.A) {
